@@ -17,7 +17,10 @@ package encoding
 //@   safety[C11]
 //@   terminates[C11]
 //@   requires len(line) >= 1 && len(firstTag) >= 1
+//@   requires[C18] @anchoredtag code(string(firstTag), 0) == 1 && hasSuffix(string(firstTag), "=")
 //@   ensures[C11] len(array) >= 1
+//@   call Index#1:
+//@     assert[C18] @splitpoint imp(ret >= 0, sub(string(line), ret + 1, ret + 1 + len(firstTag)) == string(firstTag))
 //@   loop 1:
 //@     invariant[C11] len(line) >= 1 && imp(!ok, len(array) >= 1)
 //@     decreases ite(ok, len(line) + 1, 0)
